@@ -175,6 +175,19 @@ def drawdown(F, R):
         R.violation('DD', 'Drawdown:roles', 'cannot identify peak / trough / max-drawdown cells from their initial values (min_value, max_value, 0): %s' % {c: tstr(init.get(c, ('?',))) for c in cells}, v.file)
         return
     P, T, M = peak[0], trough[0], mdd[0]
+    # initial state: the peak register must start below every admissible (positive) input -- a sentinel or a literal <= 0 --
+    # so that the first value becomes the first peak; the maximum drawdown starts at 0 ("0 before any decline")
+    okinit = bool(inits)
+    whyinit = ''
+    for nm, init_, pre in inits:
+        ip, im = init_.get(P), init_.get(M)
+        okp = ip is not None and ((ip[0] == 'sentinel' and ip[1] in ('min_value', 'neg_infinity')) or (ip[0] == 'lit' and isinstance(ip[1], (int, float)) and ip[1] <= 0))
+        okm = im is not None and im[0] == 'lit' and im[1] == 0
+        if not okp:
+            okinit, whyinit = False, 'the peak register starts at %s: a first value below it never becomes the peak (phantom peak)' % tstr(ip if ip else ('?',))
+        elif not okm:
+            okinit, whyinit = False, 'the maximum drawdown starts at %s, not 0' % tstr(im if im else ('?',))
+    R.ob('DD-init', 'Drawdown', okinit, 'peak starts below every positive input, maximum drawdown at 0' if okinit else whyinit, v.file)
     joint = ('tuple', (delivering_value(m, P), delivering_value(m, T), delivering_value(m, M)))
     try:
         cs = cases_deep(joint)
